@@ -41,6 +41,11 @@ class Mirror:
         names = colnames or ["c%d" % i for i in range(ncols)]
         if sqlname and via_sql:
             self.sqlname[name] = sqlname
+        # every index keeps about three pages pinned for good (header, start node, ...): stay within the pool
+        nidx = sum(1 for t in self.tables.values() for k in t[2] if k != "n")
+        frames = self.db.mem_kb // 4
+        if 3 * (nidx + ncols) + 20 > frames:
+            via_sql, kinds_pool = False, "n"
         if via_sql:
             tn = {"i": "int", "f": "float", "s": "varchar(255)"}
             r = self.db.sql("CREATE TABLE %s(%s);" % (self.q(name), ", ".join("%s %s" % (n, tn[t]) for n, t in zip(names, types))))
